@@ -199,6 +199,15 @@ func buildCorpus() ([]corpusItem, error) {
 	add("pkix public key", "pubkey", pk, true)
 	add("hex private key", "hex", []byte(x509.WritePrivateKeyToHex(priv)), false)
 	add("hex public key", "hex", []byte(x509.WritePublicKeyToHex(&priv.PublicKey)), false)
+	// the other spellings of a point in hex: compressed (02 / 03 || X) and hybrid (06 / 07 || X || Y) - readers that know only the
+	// uncompressed form refuse them, readers that expand them must cope with an X that is on no point
+	xhex := hex.EncodeToString(priv.PublicKey.X.FillBytes(make([]byte, 32)))
+	yhex := hex.EncodeToString(priv.PublicKey.Y.FillBytes(make([]byte, 32)))
+	add("hex public key (compressed 02)", "hex", []byte("02"+xhex), false)
+	add("hex public key (compressed 03)", "hex", []byte("03"+xhex), false)
+	add("hex public key (hybrid 06)", "hex", []byte("06"+xhex+yhex), false)
+	add("hex public key (compressed, X = 2)", "hex", []byte("02"+strings.Repeat("0", 63)+"2"), false)
+	add("hex public key (compressed, X = p)", "hex", []byte("03fffffffeffffffffffffffffffffffffffffffff00000000ffffffffffffffff"), false)
 	if b, err := pkcs12Encode(priv, lc, p.ca.cert); err == nil {
 		add("pkcs12", "pkcs12", b, true)
 	} else {
